@@ -188,6 +188,23 @@ func worker(kind string, data json.RawMessage) any {
 		panic(err)
 	}
 	o := &out{Kinds: map[string]int{}}
+	if c.From == 0 {
+		// fixed sources for shapes the generator does not produce
+		for _, src := range []string{
+			"func __main__(n) { if n <= 0 { return 0 }; return 1 + __main__(n - 1) }\n__main__(3)\n",
+			"func f(a, b=2, c=\"s\", d=1.5, e=true) { return [a, b, c, d, e] }\n[f(1), f(1, 9), 9223372036854775807, -9223372036854775807, 9007199254740993, \"\\u00e9\", 1.0e10]\n",
+		} {
+			o.Programs++
+			sig, detail, st := checkOne(src, nil, nil)
+			if st.executed {
+				o.Executed++
+				o.Compiled++
+			}
+			if sig != "" {
+				o.Fail = append(o.Fail, failure{Index: -1, Sig: sig, Detail: detail, Source: src})
+			}
+		}
+	}
 	timeouts := 0
 	for i := c.From; i < c.From+c.N; i++ {
 		p, g := c.Batch.Program(i)
